@@ -426,6 +426,8 @@ def base_world_ops(variant: int = 0) -> List[dict]:
         else:
             ops.append(add_op(d, "only1", "text", obj("text", 1, 1, tags, 18)))
             ops.append(add_op(d, "c.only1", "float", obj("float", 1, 1, tags, 19)))
+    for o in ops[:-1]:
+        o["setup"] = True
     return ops
 
 
@@ -542,6 +544,8 @@ def random_history(rng) -> List[dict]:
             ops.append(add_op(d, f["path"], kind, val, unit=unit, level=rng.choice([1, 2, 3])))
             if kind in ("position", "posvel"):
                 pos_fields.append((f["path"], kind))
+    for o in ops[:-1]:
+        o["setup"] = True
     # the operation sequence
     length = rng.randint(1, 25) if rng.random() < 0.7 else rng.randint(1, 5)
     for _ in range(length):
